@@ -295,7 +295,7 @@ func c04Complete(c *Ctx, d *driverModel) {
 	}
 	var events []complEv
 	msg := completionMessage(d) // design B: the forwarder posts (id, last PV, done) to the command loop, which completes
-	for _, t := range goTargets(d.process) {
+	for _, t := range withHelpers(goTargets(d.process)) {
 		t := t
 		if t.timer {
 			continue
@@ -384,7 +384,7 @@ func c04Complete(c *Ctx, d *driverModel) {
 						continue
 					}
 					fromAnalyze := false
-					for _, cd := range fwd.outerDefs(rcv.X) {
+					for _, cd := range df.resolve(rcv.X) {
 						if cex, ok := cd.val.(*ssa.Extract); ok && cex.Index == 0 {
 							if ac, ok := cex.Tuple.(*ssa.Call); ok && ac.Call.StaticCallee() == d.engAnalyze {
 								fromAnalyze = true
